@@ -11,6 +11,7 @@
 #define VERIF_SPEC_VT_H_
 
 #include <array>
+#include <limits>
 #include <cstddef>
 #include <cstdint>
 #include <cstring>
